@@ -216,7 +216,7 @@ def check_case(case, rec=None):
     return None
 
 
-N = {"quick": 400, "thorough": 6000}
+N = {"quick": 400, "thorough": 3000}
 
 
 def shard_plan(tier):
